@@ -28,7 +28,7 @@ var guardTable = []guardRow{
 		"server-wide state is written only by the management loop (exclusive) and read under at least the shared lock"},
 	{"pkg/server", "BgpServer", []string{"watcherMap"}, lkWatcher, locks.W, locks.R, "watcher registry has its own lock"},
 	{"pkg/server", "fsm", []string{"capMap"}, lkFsm, locks.W, locks.W, "negotiated capabilities are published under fsm.lock"},
-	{"pkg/server", "fsm", []string{"recvOpen"}, lkFsm, locks.W, locks.None, "received OPEN is stored under fsm.lock (reads: see DESIGN.md, not armed)"},
+	{"pkg/server", "fsm", []string{"recvOpen"}, lkFsm, locks.W, locks.W, "received OPEN is stored and read under fsm.lock"},
 	{"pkg/server", "peer", []string{"llgrEndChs", "prefixLimitWarned"}, lkFsm, locks.W, locks.None, "per-peer flags mutated from several goroutines under fsm.lock"},
 	{"internal/pkg/table", "destinationShard", []string{"mp"}, lkShard, locks.W, locks.R, "shard map is owned by the shard lock"},
 	{"internal/pkg/table", "destination", []string{"knownPathList", "localIdMap"}, lkShard, locks.W, locks.None, "active destinations are mutated only under their shard lock (reads happen on snapshots too)"},
@@ -44,6 +44,7 @@ var guardTable = []guardRow{
 
 var guardExceptions = []guardExc{
 	{"(*pkg/server.BgpServer).Serve", "BgpServer.listeners", "write", "initialised before the management loop starts accepting operations: no operation that reads it can run earlier"},
+	{"(*pkg/server.BgpServer).toConfig", "fsm.recvOpen", "read", "guarded by State()==ESTABLISHED: fsm.state is atomic and stored after every recvOpen write of the session; the next write needs the Idle→Active callbacks, which take sharedData.mu, while toConfig runs under sharedData.mu (exclusive) or on the peer's own FSM goroutine — no race could be produced with -race (findings/F15)"},
 	{"(*pkg/server.BgpServer).Serve", "BgpServer.acceptCh", "read", "read by the management goroutine itself, which is the only writer (StartBgp's closure runs on this goroutine)"},
 }
 
